@@ -259,13 +259,21 @@ class Context:
             target = args[0]
             if not isinstance(target, JSObject):
                 return target
-            vm = self._nested_vm() if len(args) > 1 else None
-            for i in range(1, len(args)):
-                source = args[i]
-                if isinstance(source, JSObject):
-                    for k in source.keys():
-                        # An ordinary assignment: setters on the target run
-                        vm._set_property(target, k, own_value(source, k))
+            if len(args) == 1:
+                return target
+            vm = self._nested_vm()
+            # Setters started from here nest below this VM (depth guard)
+            outer_vm = self._current_vm
+            self._current_vm = vm
+            try:
+                for i in range(1, len(args)):
+                    source = args[i]
+                    if isinstance(source, JSObject):
+                        for k in source.keys():
+                            # An ordinary assignment: setters on the target run
+                            vm._set_property(target, k, own_value(source, k))
+            finally:
+                self._current_vm = outer_vm
             return target
 
         def get_prototype_of(*args):
@@ -1240,7 +1248,13 @@ class Context:
         vm = self._nested_vm()
         if vm.start_time is None:
             vm.start_time = time.monotonic()
-        return vm._call_callback(func, args, this_val)
+        # Code started from inside the call nests below this VM (depth guard)
+        outer_vm = self._current_vm
+        self._current_vm = vm
+        try:
+            return vm._call_callback(func, args, this_val)
+        finally:
+            self._current_vm = outer_vm
 
     def get(self, name: str) -> Any:
         """Get a global variable.
